@@ -17,8 +17,12 @@ def run(res):
         if [e[0] for e in real] != [e[0] for e in spec]:
             failing += 1
             if failing <= 3:
-                missing = [e[0] for e in spec if e[0] not in [r[0] for r in real]]
-                extra = [r[0] for r in real if r[0] not in [e[0] for e in spec]]
+                import collections
+                cs, cr = collections.Counter(e[0] for e in spec), collections.Counter(r[0] for r in real)
+                missing = sorted((cs - cr).elements())      # multiset differences: the same node may have to be reported more than once
+                extra = sorted((cr - cs).elements())
+                if not missing and not extra:
+                    missing = "[none: same entries in another order]"
                 res.violation("failing-input", "the report's entries differ from the failure frontier: not reported %s, reported without "
                               "being on the frontier %s" % (missing, extra), {"case": semprops.describe(c), "value_model": c["value_model"]})
         # the rendered message carries one annotation per entry
